@@ -6,9 +6,17 @@
 
    Vocabulary (Models/C20_ir.v, Models/C20_check.v):
      run T p G = (G', o, tr)   Python semantics of a program of with-blocks (constructor, __enter__,
-                               body, __exit__ on normal AND exceptional exit, exception re-raised)
-                               from global store G; o is ONormal / ORaised / OStuck; tr lists the
-                               stores at the PObserve points.
+                               body, __exit__ on normal AND exceptional exit, exception re-raised; NO
+                               __exit__ when the header -- constructor or __enter__ -- raises), of
+                               `try: .. except Exception: pass` (PTry) and of blocks that change the
+                               warning filter (PEsc) from global store G; o is ONormal / ORaised /
+                               OStuck; tr lists the stores at the PObserve points.
+     warnings                  `warnings.warn(..)` in a class body is a potential raise point (SWarn):
+                               the store slot WARN.site says whether the filter in force turns the
+                               warning issued at that statement into an exception.  All theorems
+                               quantify over every store, hence over every filter state, also one
+                               that changes while the body runs.
+     enters T c args G         the header of `with c(args):` completes at store G.
      lookup_v T G c a          what the class attribute c.a evaluates to (base-chain lookup) -- the
                                only thing on()/off()/value()/num_probe_vectors() read.
      observe T G c m args      what the public query c.m(args) returns at store G.
@@ -91,6 +99,25 @@ Theorem c20_innermost_wins_partial :
 Proof. exact innermost_gen. Qed.
 Print Assumptions c20_innermost_wins_partial.
 
+(* FAILED HEADER: a with-statement whose header fails -- constructor or __enter__ raise for whatever
+   reason: wrong arguments, an explicit raise, a warning turned into an exception by the filter in force --
+   runs no body, raises, and leaves the store UNTOUCHED (every slot, not only the visible values; Python
+   runs no __exit__ in this case, so nothing could put a value back). *)
+Theorem c20_failed_header_writes_nothing :
+  forall c args body G,
+    In c checked -> enters gen_table c args G = false ->
+    run gen_table (PWith c args body) G = (G, ORaised, []).
+Proof. exact failed_entry_gen. Qed.
+Print Assumptions c20_failed_header_writes_nothing.
+
+(* the hypothesis is met through the warning path: checkpoint_kernel's header fails with warnings escalated
+   to errors and completes with warnings ignored *)
+Example ex_c20_warning_header :
+  In ex_ck checked /\
+  enters gen_table ex_ck [("value", VK (KNum 5 1))] (escalate true (init_store gen_table)) = false /\
+  enters gen_table ex_ck [("value", VK (KNum 5 1))] (escalate false (init_store gen_table)) = true.
+Proof. exact (conj ex_ck_checked ex_ck_header). Qed.
+
 (* what "checked" covers: every class of gpytorch itself, and every exported name but cholesky_jitter *)
 Theorem c20_repo_classes_checked :
   forall c, In c (usable gen_table) -> external c = false -> In c checked.
@@ -127,3 +154,11 @@ Example ex_c20_program_runs :
 Proof. exact ex_prog_runs. Qed.
 Example ex_c20_program_checked0 : forall c, In c (prog_classes ex_prog) -> In c checked0.
 Proof. exact ex_prog_checked0. Qed.
+
+(* a program with a caught exception and a changed warning filter: checkpoint_kernel(2) > try > warnings as
+   errors > checkpoint_kernel(9) [header raises] ; observe: the outer block still shows 2, afterwards 0 *)
+Example ex_c20_program_w_checked0 : forall c, In c (prog_classes ex_prog_w) -> In c checked0.
+Proof. exact ex_prog_w_checked. Qed.
+Example ex_c20_program_w_runs :
+  run_case ([(ex_ck, "value", [])], ex_prog_w) = [0; 1;  2; 2; 1;  2; 0; 1]%Z.
+Proof. exact ex_prog_w_runs. Qed.
